@@ -636,7 +636,7 @@ def case_eval_assign(ctx, s: Subject, nest_name=IDENT_NEST):
         ctx.case("eval.receiver_unchanged", {**s.desc(), "program": prog}, {"ok": False}, None, {"ok": True}, hyp=s.hyp)
 
 
-def case_eval_multiline(ctx, s: Subject):
+def case_eval_multiline(ctx, s: Subject, nest_name=IDENT_NEST):
     """later lines see the fields assigned on earlier lines"""
     rng = ctx.rng
     nums = num_fields(s.ty)
@@ -644,21 +644,22 @@ def case_eval_multiline(ctx, s: Subject):
         return
     n = len(s.content["rows"])
     labels = gen.rand_labels(rng, n, pattern=rng.choice(["unique_sorted", "unique_unsorted", "range"]))
-    nf, labels, other = mk_nf(ctx, s, labels=labels)
+    nf, labels, other = mk_nf(ctx, s, labels=labels, nest_name=nest_name)
+    N = q(nest_name)
     f, _ = rng.choice(nums)
     k1, k2 = rng.randint(1, 3), rng.randint(1, 3)
     overwrite = rng.random() < 0.5
     first = f if overwrite else "p"
-    prog = f"nest.{first} = nest.{f} * {k1}\nnest.r = nest.{first} + {k2}"
+    prog = f"{N}.{first} = {N}.{f} * {k1}\n{N}.r = {N}.{first} + {k2}"
     if rng.random() < 0.4:
-        prog += f"\nnest.t = nest.r - nest.{first}"
+        prog += f"\n{N}.t = {N}.r - {N}.{first}"
     inplace = rng.random() < 0.5
     hyp = dict(s.hyp)
     hyp["multiline_copy"] = not inplace
     fj = frame_json(nf)
-    e1 = {"op": "ar", "c": "*", "l": {"op": "field", "nest": "nest", "name": f}, "r": {"op": "const", "v": k1}}
+    e1 = {"op": "ar", "c": "*", "l": {"op": "field", "nest": nest_name, "name": f}, "r": {"op": "const", "v": k1}}
     # expected through the model, line by line (in place)
-    m = ctx.driver.call("frame.evalAssign", frame=fj, expr=e1, nest="nest", field=first)["model"]
+    m = ctx.driver.call("frame.evalAssign", frame=fj, expr=e1, nest=nest_name, field=first)["model"]
 
     def run():
         if inplace:
@@ -669,20 +670,20 @@ def case_eval_multiline(ctx, s: Subject):
 
     def check():
         r = run()
-        a = pa.array(r[f"nest.{first}"]).to_pylist()
-        b = pa.array(r["nest.r"]).to_pylist()
-        src = pa.array(nf[f"nest.{f}"]).to_pylist()
+        a = pa.array(r[f"{N}.{first}"]).to_pylist()
+        b = pa.array(r[f"{N}.r"]).to_pylist()
+        src = pa.array(nf[f"{N}.{f}"]).to_pylist()
         ok1 = all((x is None and y is None) or (x is not None and y is not None and (x != x or x == y * k1)) for x, y in zip(a, src))
         ok2 = all((x is None and y is None) or (x is not None and y is not None and (x != x or x == y + k2)) for x, y in zip(b, a))
         ok3 = True
-        if "nest.t" in prog:
-            t = pa.array(r["nest.t"]).to_pylist()
+        if f"{N}.t" in prog:
+            t = pa.array(r[f"{N}.t"]).to_pylist()
             ok3 = all((x is None) or (x != x) or x == k2 for x in t)
         return {"line1": ok1, "line2_sees_line1": ok2, "line3": ok3, "len": len(b) == len(src)}
     real = call_real(check)
     ctx.case("eval.multiline", {**s.desc(), "labels": labels, "program": prog, "inplace": inplace}, real, None,
              {"ok": {"line1": True, "line2_sees_line1": True, "line3": True, "len": True}}, hyp=hyp,
-             features=s.features + (f"inplace={inplace}", f"overwrite={overwrite}"), nontrivial=s.nontrivial())
+             features=s.features + (f"inplace={inplace}", f"overwrite={overwrite}", f"nest={nest_name}"), nontrivial=s.nontrivial())
 
 
 # ---- C09 nesting --------------------------------------------------------------------------------
@@ -964,7 +965,9 @@ def case_reduce(ctx, s: Subject):
         else:
             cols.append(("nest", rng.choice(names)))
     args = [c if l is None else f"{l}.{c}" for l, c in cols]
-    extra = rng.choice([(), (7,), (7, "k")])
+    # extra positional arguments start at the first argument that is not a column; whatever follows is passed on
+    # verbatim — also a string that happens to spell a column or a field path
+    extra = rng.choice([(), (7,), (7, "k"), (7, "id"), (2.5, f"nest.{names[0]}"), ("k", "x"), (7, "x", "k"), (None, "id")])
     kwargs = rng.choice([{}, {"scale": 2}])
     shape = rng.choice(["scalar", "tuple", "dict", "dotted"])
     log = []
